@@ -98,3 +98,54 @@ pub fn front_end(source: &str) -> Result<rssl::ir::Module, String> {
     let tree = rssl::parser::parse(&tokens).map_err(|_| "parse".to_string())?;
     rssl::typer::type_check(&tree).map_err(|_| "type".to_string())
 }
+
+/// Include handler over a directory tree (the third-party corpus under tests/): a name is tried relative to the
+/// directory of the including file, then relative to the root.
+pub struct DiskFiles {
+    pub root: String,
+}
+
+fn norm(path: &str) -> String {
+    let mut parts: Vec<&str> = Vec::new();
+    for p in path.split('/') {
+        if p == ".." { parts.pop(); } else if !p.is_empty() && p != "." { parts.push(p); }
+    }
+    parts.join("/")
+}
+
+impl rssl::text::IncludeHandler for DiskFiles {
+    fn load(&mut self, file_name: &str, parent_name: &str) -> Result<rssl::text::FileData, rssl::text::IncludeError> {
+        let parent_dir = match parent_name.rfind('/') { Some(i) => &parent_name[..i], None => "" };
+        for cand in [norm(&format!("{}/{}", parent_dir, file_name)), norm(file_name)] {
+            if let Ok(t) = std::fs::read_to_string(format!("{}/{}", self.root, cand)) {
+                return Ok(rssl::text::FileData { real_name: cand, contents: t });
+            }
+        }
+        Err(rssl::text::IncludeError::FileNotFound)
+    }
+}
+
+pub const CORPUS_DEFINES: &[(&str, &str)] = &[("FFX_GPU", "1"), ("FFX_HLSL", "1"), ("globallycoherent", "")];
+
+/// entry points of the third-party corpus: (root directory relative to the repository, entry file)
+pub fn corpus_entries() -> Vec<(String, String)> {
+    let repo = std::env::var("RSSL_REPO").unwrap_or("/repo".into());
+    let mut out = Vec::new();
+    for (root, exts) in [("tests/capsaicin", &["comp", "frag", "vert", "geom"][..]), ("tests/ffx_fsr2", &["hlsl"][..])] {
+        let mut stack = vec![String::new()];
+        while let Some(dir) = stack.pop() {
+            if let Ok(rd) = std::fs::read_dir(format!("{}/{}/{}", repo, root, dir)) {
+                let mut es: Vec<_> = rd.filter_map(|e| e.ok()).collect();
+                es.sort_by_key(|e| e.path());
+                for e in es {
+                    let name = e.file_name().to_string_lossy().to_string();
+                    let rel = if dir.is_empty() { name.clone() } else { format!("{}/{}", dir, name) };
+                    if e.path().is_dir() { stack.push(rel); }
+                    else if exts.iter().any(|x| name.ends_with(&format!(".{}", x))) { out.push((root.to_string(), rel)); }
+                }
+            }
+        }
+    }
+    out.sort();
+    out
+}
